@@ -309,6 +309,63 @@ func (h *hEnv) apply(op HOp) {
 			_ = os.Remove(hi)
 		}
 		h.st.Inc("ro_opens_of_damaged_head")
+	case "damaged-read-close":
+		// reads that fail on a damaged segment must not cost the lock: after Close - whatever the reads and Close itself
+		// returned - the directory can be opened read-write again ("the lock is released by Close and by a failed Open")
+		if rw != 0 || ro != 0 {
+			return
+		}
+		names, _ := listLogs(h.dir)
+		if len(names) == 0 {
+			return
+		}
+		victim := filepath.Join(h.dir, names[(op.N/3)%len(names)])
+		orig, _ := os.ReadFile(victim)
+		if len(orig) < 9 {
+			return
+		}
+		bad := append([]byte{}, orig...)
+		switch op.N % 3 {
+		case 0:
+			bad[0] ^= 0xFF // not a log file header any more
+		case 1:
+			bad = bad[:4] // shorter than a file header
+		case 2:
+			bad[8+(len(bad)-8)/2] ^= 0x40 // a record in the middle
+		}
+		_ = os.WriteFile(victim, bad, 0600)
+		l, err := klevdb.Open(h.dir, h.opts(op.RO))
+		var cerr error
+		if err == nil {
+			_, _, _ = l.Consume(klevdb.OffsetOldest, 100)
+			for o := int64(0); o < h.m.Next; o++ {
+				_, _ = l.Get(o)
+			}
+			_, _ = l.GetByKey(KeyUniverse[op.N%len(KeyUniverse)])
+			_, _ = l.Stat()
+			_ = l.GC(0)
+			_, _, _ = l.Consume(klevdb.OffsetOldest, 100)
+			if op.RmIx || op.N%2 == 0 {
+				// the failure was transient: the file is readable again before the handle is closed
+				_ = os.WriteFile(victim, orig, 0600)
+				_, _, _ = l.Consume(klevdb.OffsetOldest, 100)
+				for o := int64(0); o < h.m.Next; o++ {
+					_, _ = l.Get(o)
+				}
+				h.st.Inc("handles_with_reads_that_failed_and_later_succeeded")
+			}
+			cerr = l.Close()
+		} else {
+			h.flags["failed-open"] = true
+			h.st.Inc("failed_opens")
+		}
+		_ = os.WriteFile(victim, orig, 0600)
+		l2, err2 := klevdb.Open(h.dir, h.opts(false))
+		if err2 != nil {
+			h.fail("a handle (read-only=%v, Open result %v) read a damaged segment and was closed (Close result %v); afterwards a read-write Open of the repaired directory fails: %v", op.RO, err, cerr, err2)
+		}
+		_ = l2.Close()
+		h.st.Inc("handles_closed_after_failed_reads")
 	case "fail-missing":
 		o := h.opts(op.RO)
 		if l, err := klevdb.Open(filepath.Join(h.dir, "no-such-dir"), o); err == nil {
@@ -350,7 +407,7 @@ func runHandlesCase(c *HandlesCase, st *Stats) {
 func genHandlesCase(t *rapid.T) *HandlesCase {
 	c := &HandlesCase{Keys: rapid.Bool().Draw(t, "keys"), Times: rapid.Bool().Draw(t, "times"), Rollover: int64(pick(t, []int{100, 300, 1 << 20}, "rollover"))}
 	n := 5 + uni(t, 40, "nops")
-	kinds := []string{"open-rw", "open-rw", "open-ro", "open-ro", "open-ro", "close", "close", "close", "publish", "publish", "ro-queries", "fail-flags", "fail-corrupt", "fail-missing", "ro-damaged"}
+	kinds := []string{"open-rw", "open-rw", "open-ro", "open-ro", "open-ro", "close", "close", "close", "publish", "publish", "ro-queries", "fail-flags", "fail-corrupt", "fail-missing", "ro-damaged", "damaged-read-close"}
 	for i := 0; i < n; i++ {
 		c.Ops = append(c.Ops, HOp{Kind: pick(t, kinds, "kind"), Slot: uni(t, 3, "slot"), RO: rapid.Bool().Draw(t, "ro"), N: uni(t, 64, "n"), RmIx: uni(t, 4, "rmix") == 3})
 	}
